@@ -13,6 +13,7 @@ package main
 
 import (
 	"fmt"
+	"sort"
 	"regexp"
 	"strings"
 
@@ -475,6 +476,7 @@ func runC20(c *Ctx) error {
 		}
 	}
 	c.c20RecursiveFault()
+	c.c20TopLevelFault()
 	return c.c20PosLimits()
 }
 
@@ -531,6 +533,46 @@ func (c *Ctx) c20RecursiveFault() {
 			}
 		}
 	}
+}
+
+// c20TopLevelFault: a fault in top-level code (outside every function) after declarations of each kind: the first
+// line names no function, whatever was declared last
+func (c *Ctx) c20TopLevelFault() {
+	decls := map[string]string{
+		"method-last":   "type T struct {\n\tA int\n}\n\nfunc (t *T) M() int {\n\treturn t.A\n}\n",
+		"function-last": "type T struct {\n\tA int\n}\n\nfunc (t *T) M() int {\n\treturn t.A\n}\n\nfunc f() int {\n\treturn 1\n}\n",
+		"type-only":     "type T struct {\n\tA int\n}\n",
+		"nothing":       "",
+	}
+	for _, name := range sortedKeys2(decls) {
+		pre := decls[name]
+		line := strings.Count(pre, "\n") + 3
+		src := pre + "\nxs := []int{1}\nys := xs[5]\nprintln(ys)\n"
+		for _, opt := range []bool{false, true} {
+			var err error
+			if e := try(func() { _, err = goat.New().VerifEval(src, opt) }); e != nil {
+				err = fmt.Errorf("PANIC escaped: %v", e)
+			}
+			got := "unparsed: " + fmt.Sprint(err)
+			if fr, ok := c20Parse(err); ok {
+				got = c20Show(fr)
+			}
+			want := c20Show([]c20Frame{{"", line}})
+			c.Rep.Oracle["top-level-fault"]++
+			if got != want {
+				c.Rep.Violate(Violation{Kind: "oracle", Cut: "top-level-fault", Input: fmt.Sprintf("%s optimize=%v\n%s", name, opt, src), Impl: got, Oracle: want})
+			}
+		}
+	}
+}
+
+func sortedKeys2(m map[string]string) []string {
+	var ks []string
+	for k := range m {
+		ks = append(ks, k)
+	}
+	sort.Strings(ks)
+	return ks
 }
 
 // c20PosLimits: the position word against the model (Goat.Backtrace.newPos / posInfo): faults planted beyond
